@@ -244,6 +244,8 @@ def r_forms(ctx, rid):
 
 
 def check(ctx):
+    from . import c04
+    c04.group_rule(ctx, 'R16.5', r"^(<parse::ExprTree<'_> as std::fmt::Display>::fmt|<pattern::Pattern as std::fmt::Display>::fmt|types::TypeInner::<A>::display)$", 'parse-tree, pattern and type printers: complete pre-order state machines', 3)
     r_forms(ctx, 'R16.4')
     r_tokens(ctx, 'R16.1')
     r_variants(ctx, 'R16.2')
